@@ -2215,3 +2215,9 @@ int32_t utap_verif_scan(const char* str, ParserBuilder* builder, int syntax_kind
     return count;
 }
 #endif
+
+#ifdef UTAP_VERIF
+/* Verification hook: the semantic value of the token utap_verif_scan() has just handed to its sink. */
+int32_t utap_verif_token_number() { return utap_lval.number; }
+double utap_verif_token_floating() { return utap_lval.floating; }
+#endif
